@@ -9,7 +9,7 @@ RULE = ('families with a known emission position, each on 1-3 interleaved keys, 
         'event being pushed: (peritem) random pipelines of per-item operators and running aggregates, also inside '
         'group_by/roll/split/time_split and tee_map: every output appears in the step of a source item, nothing is held back '
         'to the completion step; (window) roll/split/time_split/batch with to_list: the result of a window, segment or batch '
-        'appears in the step of its closing item; (final) reduce/last/to_list/pad_end: only in the completion step. '
+        'appears in the step of its closing item (time_split also with a closing_mapper, closing item included or not); (final) reduce/last/to_list/pad_end: only in the completion step. '
         'non-trivial = >= 3 source items in some key; distinct = distinct JSON')
 ASSUMPTIONS = ['take/first do not end a key early in multiplexed mode (specified behaviour)']
 
@@ -68,8 +68,9 @@ def generate(rng, tier):
             par = rng.choice([['floordiv', 2], ['isodd'], ['floordiv', 3]])
             ast = [['split', par, [['to_list']]]]
         elif fam == 'tsplit':
-            par = [rng.choice([None, 4, 6]), rng.choice([None, 2, 3])]
-            ast = [['time_split', ['id'], par[0], par[1], None, 1, [['to_list']]]]
+            closing = rng.choice([None, ['comp', ['mod', rng.choice([2, 3, 4])], ['eq', enc(0)]], ['isodd']])
+            par = [rng.choice([None, 4, 6]), rng.choice([None, 2, 3]), closing, int(rng.random() < 0.6)]
+            ast = [['time_split', ['id'], par[0], par[1], closing, par[3], [['to_list']]]]
         else:
             ast = [rng.choice([['count', 1], ['last'], ['to_list'], ['pad_end', 2, enc(9)], ['sum', None, 1],
                                ['scan', ['add'], enc(0), 1, None], ['max', None, 1]])]
@@ -130,7 +131,8 @@ def oracle(case, obs):
                     j -= 1
                 fin.append(xs[j:])
         elif fam == 'tsplit':
-            a, ina = case['par']
+            a, ina, closing, incl = case['par']
+            closing = py_fn(closing) if closing else None
             start = last = None
             cur = []
             for i, t in enumerate(xs):
@@ -140,6 +142,15 @@ def oracle(case, obs):
                     want[lt['pos'][i]].append(cur)
                     cur = [t]
                     start = last = t
+                elif closing is not None and closing(t) is True:
+                    # the closing item ends the window in its own step (inside it or as the first of the next)
+                    start = last = t
+                    if incl:
+                        want[lt['pos'][i]].append(cur + [t])
+                        cur = []
+                    else:
+                        want[lt['pos'][i]].append(cur)
+                        cur = [t]
                 else:
                     cur.append(t)
                     last = t
